@@ -549,7 +549,11 @@ func (b *GRPCBroker) DialWithOptions(id uint32, opts ...grpc.DialOption) (conn *
 	select {
 	case c = <-p.ch:
 		verifhook.Point("grpc.dial.taking", id)
-		close(p.doneCh)
+		// An ID can be used again while the pending entry of its previous use
+		// is still waiting to be removed, in which case the new connection
+		// info is parked in that same entry: its done channel is already
+		// closed.
+		p.once.Do(func() { close(p.doneCh) })
 		verifhook.Point("grpc.dial.info", id)
 	case <-time.After(5 * time.Second):
 		return nil, fmt.Errorf("timeout waiting for connection info")
